@@ -154,7 +154,8 @@ def build_incremental(env, cls, cfg, faults=None, ctor_kwargs=None):
     d, q, m = cfg['d'], cfg.get('q', 1), cfg.get('m', 1)
     names = names_for(cfg.get('names', 'str'), d)
     labels = LABELSETS[cfg.get('labels', 1)]
-    model = UFModel(env, names, labels=labels, faults=faults, reads=cfg.get('_reads'))
+    model = UFModel(env, names, labels=labels, faults=faults, reads=cfg.get('_reads'),
+                    varying_labels=cfg.get('varlabels', False))
     loss = UFLoss(env, faults=faults)
     dynamic = cfg.get('mode', 'static') == 'dynamic'
     alpha = None
